@@ -335,10 +335,11 @@ class Forall:
        hints: f(*consts) -> [ground terms] that are mentioned as seeds for E-matching when the clause is *proved*
        (the engine skolemises the quantifier itself, so hints can mention the skolem constants)."""
 
-    def __init__(self, vars_, body, patterns=None, hints=None, without=None):
+    def __init__(self, vars_, body, patterns=None, hints=None, without=None, lemmas=None):
         """without: terms (typically array constants of unrelated fields); hypotheses mentioning any of them are left out of
         this clause's VC (sound: fewer hypotheses) to keep the query small."""
         self.vars_, self.body, self.patterns, self.hints, self.without = vars_, body, patterns, hints, without
+        self.lemmas = lemmas  # f(*skolem consts) -> [instances of already proved lemmas], hypotheses of this clause's VC only
 
     def as_formula(self):
         vs = [z3.Const(n, srt) for n, srt in self.vars_]
